@@ -327,11 +327,11 @@ package setec
 //@ callers [C16 lookup-closure-only-via-do] (*client/setec.Store).lookupSecretInternal$1 only-from (*client/setec.Store).lookupSecretInternal (value)
 // A-interval: a poll interval of at least 5ns (below that 2*interval/10 is 0 and rand.Intn panics)
 //@ func (*Store).run(s, ctx, interval, done)
-//@   requires s != nil && storeInv(s) && !s.active.Mutex && ctx != nil && done != nil && s.newTicker != nil && interval >= 5
+//@   requires s != nil && storeInv(s) && !s.active.Mutex && ctx != nil && done != nil && s.newTicker != nil && interval > 0
 //@   interference at Refresh writers (*client/setec.Store).Refresh$1 assume storeInv(s) && !s.active.Mutex && cacheWrites >= old(cacheWrites)
 //@   ensures [C13 run.flush-on-shutdown] s.cache != nil ==> cacheWrites >= old(cacheWrites) + 1
 //@   ensures [C11,C13 run.stops-only-on-cancel] chanFired(doneChan(ctx))
-//@   at call newTicker: assert [C11 run.period-within-10pct] arg_d >= interval - interval / 10 && arg_d < interval + (2 * interval) / 10 - interval / 10
+//@   at call newTicker: assert [C11 run.period-within-10pct] arg_d >= interval - interval / 10 && arg_d <= interval + interval / 10 && arg_d > 0
 //@   loop 0
 //@     invariant [state] s != nil && !s.active.Mutex && ctx != nil
 //@     invariant [inv] storeInv(s)
